@@ -72,6 +72,7 @@ int main()
         return "ok";
       }
       if (op == "treg") return g_tab->reg(0x1000 + (uintptr_t)parse_dec(t[1]));
+      if (op == "tregn") return g_tab->reg(0);     // the application registers a NULL pointer: it gets an ordinary (non-zero, unique) token
       if (op == "trel") return g_tab->rel((uint64_t)parse_dec(t[1]));
       if (op == "tlook") return g_tab->look((uint64_t)parse_dec(t[1]));
       if (op == "tstate") return "-"; // only the model can print its state
